@@ -113,6 +113,28 @@ func c12Case(c *core.Ctx, rng *rand.Rand, dir string, idx int) {
 			if listed && err == nil {
 				c.Count("readds_of_listed_path", 1)
 			}
+			// identity, not only counts: right after a successful Add(p) some kernel mark of this
+			// Watcher must be attached to the inode p names NOW (single-threaded driver: nothing
+			// can have replaced p in between)
+			// (strict programs only: with the reader lagging, an Add that overtakes the still-queued
+			// IN_MOVE_SELF of the same inode is undone when that notification is processed —
+			// bookkeeping and kernel agree again afterwards, which is all C12 states)
+			if err == nil && pan == "" && strict {
+				if ino := twin.InoOf(filepath.Clean(p)); ino != 0 {
+					marks, merr := twin.KernelMarks(fsnotify.VerifInotifyFd(s.W))
+					found := merr != nil
+					for _, m := range marks {
+						if m.Ino == ino {
+							found = true
+						}
+					}
+					c.Count("add_identity_checks", 1)
+					if !found {
+						c.Violate("listed-path-backed-by-wrong-inode", fmt.Sprintf("Add(%q) returned nil but no kernel watch of this Watcher is on inode %d, which the path names now (marks: %v); history tail %v", p, ino, marks, s.Tail(14)), s.Tail(60))
+						failed = true
+					}
+				}
+			}
 		} else {
 			err, pan = twin.Protect(func() error { return s.W.Remove(p) })
 		}
